@@ -117,7 +117,8 @@ type Run struct {
 	eng      *Engine
 	top      *ssa.Function
 	contract *FuncContract
-	lines    []string
+	lines    []scriptLine
+	anc      map[string]map[string]bool // pc name -> pcs that can precede it (relevance of guarded assumptions)
 	ctr      int
 	obls     []*Obligation
 	heapVer  map[string]int
@@ -150,7 +151,45 @@ func (r *Run) fresh(prefix string) string {
 	return fmt.Sprintf("%s_%d", prefix, r.ctr)
 }
 
-func (r *Run) emit(line string) { r.lines = append(r.lines, line) }
+type scriptLine struct {
+	text  string
+	guard string // name of the path condition guarding an assumption ("" = unconditional / declaration)
+}
+
+func (r *Run) emit(line string) { r.lines = append(r.lines, scriptLine{text: line}) }
+
+// newPC names a path condition and records which earlier path conditions can lead to it.
+func (r *Run) newPC(t Term, parents ...Term) Term {
+	if t.S == "true" || t.S == "false" {
+		return t
+	}
+	n := r.fresh("pc")
+	r.emit(fmt.Sprintf("(define-fun %s () Bool %s)", n, t.S))
+	if r.anc == nil {
+		r.anc = map[string]map[string]bool{}
+	}
+	a := map[string]bool{n: true}
+	for _, p := range parents {
+		for k := range r.anc[p.S] {
+			a[k] = true
+		}
+	}
+	r.anc[n] = a
+	return Term{n, "Bool"}
+}
+
+func (r *Run) scriptFor(pc Term) string {
+	var b strings.Builder
+	rel := r.anc[pc.S]
+	for _, l := range r.lines {
+		if l.guard != "" && l.guard != pc.S && !rel[l.guard] {
+			continue
+		}
+		b.WriteString(l.text)
+		b.WriteString("\n")
+	}
+	return b.String()
+}
 
 // def names a term (keeps queries DAG-shaped).
 func (r *Run) def(prefix string, t Term) Term {
@@ -165,6 +204,23 @@ func (r *Run) def(prefix string, t Term) Term {
 	return Term{n, t.Sort}
 }
 
+// name always introduces a definition (used where a term must be pattern-safe).
+func (r *Run) name(prefix string, t Term) Term {
+	if r.noDef > 0 || !strings.Contains(t.S, " ") {
+		return t
+	}
+	n := r.fresh(prefix)
+	r.emit(fmt.Sprintf("(define-fun %s () %s %s)", n, t.Sort, t.S))
+	return Term{n, t.Sort}
+}
+
+// constOf introduces a fresh constant equal to t on the current path.
+func (r *Run) constOf(st *State, prefix string, t Term) Term {
+	c := r.havoc(prefix, t.Sort)
+	r.assume(st, eq(c, t))
+	return c
+}
+
 func (r *Run) havoc(prefix, sort string) Term {
 	n := r.fresh(prefix)
 	r.emit(fmt.Sprintf("(declare-const %s %s)", n, sort))
@@ -175,7 +231,11 @@ func (r *Run) assume(st *State, fact Term) {
 	if fact.S == "true" {
 		return
 	}
-	r.emit(fmt.Sprintf("(assert %s)", implies(st.pc, fact).S))
+	g := st.pc.S
+	if g == "true" {
+		g = ""
+	}
+	r.lines = append(r.lines, scriptLine{text: fmt.Sprintf("(assert %s)", implies(st.pc, fact).S), guard: g})
 }
 
 func (r *Run) oblige(st *State, kind, name string, tags []string, goal Term, src string, claimed bool, pos token.Pos) {
@@ -186,10 +246,7 @@ func (r *Run) oblige(st *State, kind, name string, tags []string, goal Term, src
 		// trivially true goals are still counted (cheap), keeps obligation names stable
 	}
 	var b strings.Builder
-	for _, l := range r.lines {
-		b.WriteString(l)
-		b.WriteString("\n")
-	}
+	b.WriteString(r.scriptFor(st.pc))
 	fmt.Fprintf(&b, "(assert %s)\n(assert (not %s))\n", st.pc.S, goal.S)
 	posS := ""
 	if pos.IsValid() {
@@ -218,10 +275,7 @@ func (r *Run) satCheck(st *State, name string, tags []string, extra Term) {
 		return
 	}
 	var b strings.Builder
-	for _, l := range r.lines {
-		b.WriteString(l)
-		b.WriteString("\n")
-	}
+	b.WriteString(r.scriptFor(st.pc))
 	fmt.Fprintf(&b, "(assert %s)\n(assert %s)\n", st.pc.S, extra.S)
 	r.obls = append(r.obls, &Obligation{Name: name, Kind: "vacuity", Tags: tags, Func: r.top.String(), Script: b.String(), Expect: "sat", Claimed: true})
 }
@@ -322,8 +376,7 @@ func (r *Run) readRoot(st *State, l *Loc) Term {
 }
 
 func (r *Run) elemIndex(slice, idx Term) Term {
-	off := app("Int", "sl_off", slice)
-	return app("Int", "+", off, idx)
+	return app("Int", "sl_ix", app("Int", "sl_off", slice), idx)
 }
 
 func (r *Run) writeRoot(st *State, l *Loc, v Term) {
@@ -504,7 +557,7 @@ func (r *Run) merge(sts []*State) *State {
 	for _, s := range sts {
 		pcs = append(pcs, s.pc)
 	}
-	n := &State{pc: r.def("pc", or(pcs...)), locals: map[*ssa.Alloc]Term{}, heaps: map[string]Term{}}
+	n := &State{pc: r.newPC(or(pcs...), pcs...), locals: map[*ssa.Alloc]Term{}, heaps: map[string]Term{}}
 	// locals present in all
 	for a := range sts[0].locals {
 		all := true
@@ -639,9 +692,9 @@ func (fr *Frame) execBlock(b *ssa.BasicBlock, st *State) {
 			c := fr.term(x.Cond)
 			c = r.def("c", c)
 			t := st.clone()
-			t.pc = r.def("pc", and(st.pc, c))
+			t.pc = r.newPC(and(st.pc, c), st.pc)
 			f := st.clone()
-			f.pc = r.def("pc", and(st.pc, not(c)))
+			f.pc = r.newPC(and(st.pc, not(c)), st.pc)
 			fr.addEdge(b, b.Succs[0], t)
 			fr.addEdge(b, b.Succs[1], f)
 			return
